@@ -292,6 +292,108 @@ def pipeline(chk):
         finally:
             shutil.rmtree(dd, ignore_errors=True)
         chk.traces += 1
+    # ---------------- S2e: three systematic histories in which state survives from one call to the next
+    n2e = len(lines)
+    # (i) a filter attached to a composite (directly, through an environment, on the outer of two nested composites) over ONE member that holds several versions of an id, of
+    #     which some pass the filter and some do not, stored in every order: every version is judged by the filter, not only the first one examined
+    vers = [D.mk(11, 1, name=1), D.mk(11, 2, name=2), D.mk(11, 11, name=1), D.mk(11, 12, name=2)]
+    other = D.mk(21, 1, name=2)
+    for perm in ([(0, 1, 2, 3), (1, 0, 2, 3), (3, 2, 1, 0), (2, 3, 0, 1), (1, 2, 3, 0), (0, 3, 1, 2)] if quick else list(itertools.permutations(range(4)))):
+        recs = [vers[i] for i in perm] + [other]
+        ref = {(r["id"], r["ver"]): D.build(r) for r in recs}
+        for mkind in ("memory_source", "memory_store", "filesystem") if (not quick or perm[0] in (0, 3)) else ("memory_source", "memory_store"):
+            dd = None
+            try:
+                if mkind == "filesystem":
+                    dd = tempfile.mkdtemp(prefix="c18f-", dir=chk.scratch)
+                    sink = stix2.FileSystemSink(dd, allow_custom=True)
+                    for r in recs:
+                        sink.add(D.build(r))
+                    member = FileSystemSource(dd, allow_custom=True)
+                elif mkind == "memory_source":
+                    member = MemorySource([D.build(r) for r in recs], allow_custom=True)
+                else:
+                    st = stix2.MemoryStore(allow_custom=True)
+                    for r in recs:
+                        st.add(D.build(r))
+                    member = st.source
+                for catt in ([flt("name", "=", 1)], [flt("name", "=", 2)], [flt("modified", ">", 2)], [flt("modified", "<", 12), flt("name", "!=", 1)]):
+                    for front_name in ("composite", "environment", "nested"):
+                        comp = CompositeDataSource()
+                        comp.add_data_sources([member])
+                        holder = comp
+                        if front_name == "nested":
+                            holder = CompositeDataSource()
+                            holder.add_data_sources([comp])
+                        holder.filters.add([D.conc_filter(f, rng) for f in catt])
+                        front = Environment(source=holder) if front_name == "environment" else holder
+                        tid = 350000 + len(lines)
+                        ex = {"member_order": [0], "member_kind": mkind, "routes": {"composite": len(catt)}}
+                        lines.append(read_line(tid, "call_versions", front_name, recs, ref, lambda: front.all_versions(D.sid(11)), id_=11, filters=catt, extra=ex))
+                        lines.append(read_line(tid, "cget", front_name, recs, ref, lambda: front.get(D.sid(11)), id_=11, filters=catt, extra=ex))
+                        lines.append(read_line(tid, "cquery", front_name, recs, ref, lambda: front.query(), filters=catt, extra=ex))
+                        lines.append(read_line(tid, "call_versions", front_name, recs, ref, lambda: front.all_versions(D.sid(11)), id_=11, filters=catt, extra=ex))
+            finally:
+                if dd:
+                    shutil.rmtree(dd, ignore_errors=True)
+    # (ii) a memory store / source that already holds versions of an id loads a file holding other versions of it (and of other ids): the store is the union
+    for loader in ("store", "source"):
+        for held, filed in (([D.mk(11, 1), D.mk(11, 11), D.mk(21, 1)], [D.mk(11, 2), D.mk(11, 12), D.mk(41, 1)]), ([D.mk(11, 12)], [D.mk(11, 1), D.mk(11, 2)]),
+                            ([D.mk(11, 1), D.mk(21, 2)], [D.mk(11, 1), D.mk(21, 11)])):
+            a = stix2.MemoryStore(allow_custom=True)
+            b = stix2.MemoryStore(allow_custom=True)
+            for r in held:
+                a.add(D.build(r))
+            for r in filed:
+                b.add(D.build(r))
+            pth = os.path.join(chk.scratch, "load-%d.json" % len(lines))
+            b.save_to_file(pth)
+            try:
+                (a if loader == "store" else a.source).load_from_file(pth)
+                lexc = "none"
+            except Exception as e:  # noqa
+                lexc = type(e).__name__
+            both = held + [r for r in filed if r not in held]
+            ref = {(r["id"], r["ver"]): D.build(r) for r in both}
+            tid = 360000 + len(lines)
+            ex = {"routes": {"loaded_into_nonempty_%s" % loader: 1}, "load_exc": lexc}
+            for id_ in sorted({r["id"] for r in both}):
+                lines.append(read_line(tid, "get", "mem", both, ref, lambda: a.get(D.sid(id_)), id_=id_, extra=ex))
+                lines.append(read_line(tid, "all_versions", "mem", both, ref, lambda: a.all_versions(D.sid(id_)), id_=id_, extra=ex))
+            lines.append(read_line(tid, "query", "mem", both, ref, lambda: a.query(), extra=ex))
+    # (iii) ONE long-lived filesystem source: it is asked while a type directory does not exist / is empty / holds only a flat file, objects of that type are
+    #       then written through a sink on the same directory, and the same source is asked again (what it learned about the directory must not outlive the change)
+    for start in ("absent", "empty_dir", "flat_file"):
+        dd = tempfile.mkdtemp(prefix="c12l-", dir=chk.scratch)
+        try:
+            src = FileSystemSource(dd, allow_custom=True)
+            sink = stix2.FileSystemSink(dd, allow_custom=True)
+            present = []
+            tname = D.sid(11).split("--")[0]
+            if start != "absent":
+                os.makedirs(os.path.join(dd, tname))
+            if start == "flat_file":
+                r0 = D.mk(12, 1, name=2)
+                with open(os.path.join(dd, tname, D.sid(12) + ".json"), "w") as f:
+                    json.dump(D.build(r0), f)
+                present.append(r0)
+            tid = 370000 + len(lines)
+            phases = [[], [D.mk(11, 1, name=1)], [D.mk(11, 11, name=2), D.mk(13, 2, name=1)]]
+            for ph, adds in enumerate(phases):
+                for r in adds:
+                    sink.add(D.build(r))
+                    present.append(r)
+                ref = {(r["id"], r["ver"]): D.build(r) for r in present}
+                ex = {"routes": {"long_lived_source:%s:phase%d" % (start, ph): 1}}
+                for fl in ([], [flt("type", "=", 1)], [flt("id", "=", 11)], [flt("name", "=", 1)]):
+                    lines.append(read_line(tid, "query", "fs", present, ref, lambda: src.query([D.conc_filter(f, rng) for f in fl]), filters=fl, extra=ex))
+                for id_ in (11, 12, 13):
+                    lines.append(read_line(tid, "get", "fs", present, ref, lambda: src.get(D.sid(id_)), id_=id_, extra=ex))
+                    lines.append(read_line(tid, "all_versions", "fs", present, ref, lambda: src.all_versions(D.sid(id_)), id_=id_, extra=ex))
+        finally:
+            shutil.rmtree(dd, ignore_errors=True)
+    chk.stages["S2e_state_between_calls"] = {"lines": len(lines) - n2e}
+    chk.traces += 1
     # ---------------- S3: random populations: stores, three filter routes, composites in every attachment order, navigation
     for h in range(12 if quick else 500):
         recs = rand_universe(rng)
